@@ -384,6 +384,14 @@ def refute_nonempty(ev, gate):
     if cond.op != "le" or max_of(cond.a[1]) != 0 or cond.a[0].op != "len":
         return None
     v = cond.a[0].a[0]
+    # the same list built by pushing (a clone of) every selected element into an empty vector
+    if v.op == "extend" and v.a[0].op == "seq" and not v.a[0].a and isinstance(v.a[1], tm.T):
+        it = v.a[1]
+        if it.op == "map" and isinstance(it.a[1], tm.T) and it.a[1].op == "lam":
+            y = tm.fresh("idm")
+            if tm.apply_lam(it.a[1], [y]) is y:
+                it = it.a[0]
+        v = tm.mk("collect", it)
     if v.op != "collect" or v.a[0].op != "filter":
         return None
     base = v.a[0]
